@@ -5,7 +5,6 @@ import (
 	"fmt"
 	"io"
 	"os"
-	"runtime/pprof"
 	"time"
 
 	"github.com/sirupsen/logrus"
@@ -39,6 +38,8 @@ func main() {
 			"hist/mount run the real Resolver/Mount code sequentially (no scheduler); FUSE server start replaced by a seam; kernel page cache (FOPEN_KEEP_CACHE) is outside",
 			"sched: sequential consistency at instrumented sync operations; reader.verify / lastVerifyErr / prohibitVerifyFailure are watched (scheduling point before each access); reader.Cache's semaphore width = GOMAXPROCS is 1 (quick) / 1,2 (thorough)",
 			"bolt opened with NoSync and MaxBatchDelay=0 (speed only)",
+			"inputs and verdicts are deterministic; db.ForeachChild iterates a Go map, so which of several failing chunks aborts a prefetch first (and with it the count of cases that reach the read phase) can differ by a few cases between runs; a case that produces no result within 40 s is killed and recorded as process-hang",
+			"process crashes on hostile bytes (stack overflow in metadata/memory assignIDs, out-of-memory on huge TOC numbers) are isolated in a child process per shard and recorded as outcomes",
 		},
 		QuickBudget: 10 * time.Minute, ThoroughBudget: 30 * time.Minute, // quick needs ~2-3 min on an idle 16-core machine; the budget leaves room for a loaded one
 		Parts: func(tier string) []runner.Part {
@@ -48,29 +49,6 @@ func main() {
 }
 
 func debugMain() {
-	if os.Getenv("C01_DEBUG") == "profhist" {
-		f, _ := os.Create("/tmp/c01h.prof")
-		pprof.StartCPUProfile(f)
-		t0 := time.Now()
-		p := histPart("quick")
-		r := p.Run(&runner.Ctx{Tier: "quick", Shard: 1, Of: 480, Scratch: "/dev/shm/c01profh", Deadline: time.Now().Add(time.Hour)})
-		pprof.StopCPUProfile()
-		fmt.Println("elapsed", time.Since(t0), r.Evaluations, r.Broken)
-		return
-	}
-	if os.Getenv("C01_DEBUG") == "prof" {
-		f, _ := os.Create("/tmp/c01.prof")
-		pprof.StartCPUProfile(f)
-		t0 := time.Now()
-		os.Setenv("C01_CHILD", `{"tier":"quick","shard":1,"of":640,"from_seq":1,"scratch":"/dev/shm/c01prof"}`)
-		old := os.Stdout
-		os.Stdout, _ = os.Create("/tmp/c01.child.out")
-		alterChild()
-		os.Stdout = old
-		pprof.StopCPUProfile()
-		fmt.Println("elapsed", time.Since(t0))
-		return
-	}
 	for _, cfg := range baseConfigs(os.Getenv("C01_DEBUG")) {
 		t0 := time.Now()
 		b, err := buildBase(cfg)
